@@ -10,7 +10,10 @@ package main
 //   - a new version is PENDING_GENERATION; a poll (GetCryptoKeyVersion) that finds the countdown at 0
 //     completes generation and reports the final state (ENABLED unless the environment says
 //     otherwise), a poll before that decrements the countdown and reports PENDING_GENERATION;
-//   - GetPublicKey / AsymmetricSign need an ENABLED version;
+//     or (k10Env.immediate) it is created directly ENABLED / DISABLED / GENERATION_FAILED and the
+//     response of CreateCryptoKeyVersion reports that state;
+//   - GetPublicKey / AsymmetricSign need an ENABLED version (GetPublicKey is also served for a version
+//     that was created DISABLED: it has key material);
 //   - DestroyCryptoKeyVersion: ENABLED / DISABLED -> DESTROY_SCHEDULED, refused in any other state.
 
 import (
@@ -212,9 +215,30 @@ type k10Env struct {
 	corrupt  string                                       // "", "sigcrc", "vdata", "vdigest"
 	// immediate: the version is created already in its final state and CreateCryptoKeyVersion's response says
 	// so (no PENDING_GENERATION phase, as for software keys); a version created DISABLED has key material, so
-	// its public key is served.  The first poll then reports exactly what gen=0 reports, so the model line is
-	// the one of gen=0 with the same final state.
+	// its public key is served.  The model's KmsEnv.created / KmsEnv.pubDisabled (Model/RotateKms.lean) are
+	// derived from imm= and final= of the op line, so a run cut before the first poll is compared too.
 	immediate bool
+	// resp: the state CreateCryptoKeyVersion's response reports when it is not the version's state (0: truthful).
+	// The shipped code never reads it (KmsEnv.resp in the model; C10_kms_create_response_ignored).
+	resp kmspb.CryptoKeyVersion_CryptoKeyVersionState
+	// created: like immediate, with the created state given directly (ENABLED / DISABLED) and `final` left to the
+	// versions that do go through generation (stream c12kms: Env.created of Model/KeyHistoryKms.lean); a version
+	// created DISABLED this way does not serve its public key (in that model only ENABLED versions answer)
+	created kmspb.CryptoKeyVersion_CryptoKeyVersionState
+}
+
+func (e k10Env) respLetter() string {
+	switch e.resp {
+	case ksEnabled:
+		return "E"
+	case ksPending:
+		return "P"
+	case ksDisabled:
+		return "D"
+	case ksGenFailed:
+		return "F"
+	}
+	return "-"
 }
 
 func (e k10Env) finalLetter() string {
@@ -357,12 +381,19 @@ func (c *k10Client) CreateCryptoKeyVersion(_ context.Context, in *kmspb.CreateCr
 			}
 			v.pubWhenDisabled = true
 		}
+		if c.env.created != 0 {
+			v.state, v.pend = c.env.created, 0
+		}
 	}
 	c.leave(o)
 	if v == nil {
 		return nil, status.Error(codes.NotFound, "k10: no such cryptoKey")
 	}
-	return &kmspb.CryptoKeyVersion{Name: v.name, State: v.state}, nil
+	st := v.state
+	if c.env.resp != 0 {
+		st = c.env.resp
+	}
+	return &kmspb.CryptoKeyVersion{Name: v.name, State: st}, nil
 }
 
 func (c *k10Client) GetCryptoKeyVersion(_ context.Context, in *kmspb.GetCryptoKeyVersionRequest, _ ...grpc.CallOption) (*kmspb.CryptoKeyVersion, error) {
